@@ -77,6 +77,8 @@ struct World {
     store_ok: bool,
     upd_keys: Vec<String>,
     upd_flags: Vec<String>,
+    /// keys / flags whose permission was granted and later revoked
+    revoked: Vec<(bool, String)>,
 }
 
 fn world(rng: &mut Rng) -> World {
@@ -112,25 +114,50 @@ fn world(rng: &mut Rng) -> World {
         Acct::wallet(setup),
         Acct::wallet(admin),
     ];
-    // updatable sets through the real instruction (needs a MARKET_KEEPER, so impossible while the role never existed)
+    // updatable sets through the real instruction (needs a MARKET_KEEPER, so impossible while the role never existed):
+    // a history of grants AND revocations per key / flag; `upd_*` is the set the policy says is updatable afterwards
     let (mut upd_keys, mut upd_flags) = (vec![], vec![]);
+    let mut revoked: Vec<(bool, String)> = vec![];
     if mk != St::Absent {
+        let set_upd = |ledger: &mut Vec<Acct>, is_flag: bool, k: &str, updatable: bool| -> Outcome {
+            call(ledger, acc::SetMarketConfigUpdatable { authority: setup, store: store_key }.to_account_metas(None),
+                ix::SetMarketConfigUpdatable { is_flag, key: k.to_string(), updatable }.data(), None)
+        };
         let dens = rng.below(4); // 0: none, 1: sparse, 2: half, 3: all
-        for k in keys() {
-            let on = match dens { 0 => false, 1 => rng.chance(1, 8), 2 => rng.chance(1, 2), _ => true };
+        let mut names: Vec<(bool, String)> = keys().iter().map(|k| (false, k.to_string())).collect();
+        names.extend(flags().iter().map(|f| (true, f.to_string())));
+        for (is_flag, name) in names {
+            let on = if is_flag { rng.chance(2, 3) } else { match dens { 0 => false, 1 => rng.chance(1, 8), 2 => rng.chance(1, 2), _ => true } };
+            let mut cur = false;
+            // one observed step of the permission history: (current state by the policy, requested state) -> outcome
+            let mut step = |ledger: &mut Vec<Acct>, cur: &mut bool, arg: bool, report: bool| {
+                let o = set_upd(ledger, is_flag, &name, arg);
+                if report {
+                    emit(&format!("setupd/{}/{}", if is_flag { "flag" } else { "key" }, if o.result.is_ok() { "ok" } else { "rejected" }),
+                        &format!("SetUpd {} {} {} {} {} {}", b(is_flag), qs(&name), b(*cur), b(arg), b(o.result.is_ok()), z(code(&o))));
+                }
+                if o.result.is_ok() {
+                    *cur = arg;
+                }
+            };
+            let report = if is_flag { rng.chance(1, 3) } else { rng.chance(1, 40) };
             if on {
-                let o = call(&mut ledger, acc::SetMarketConfigUpdatable { authority: setup, store: store_key }.to_account_metas(None),
-                    ix::SetMarketConfigUpdatable { is_flag: false, key: k.to_string(), updatable: true }.data(), None);
-                assert!(o.result.is_ok(), "setup updatable: {:?}", o.result);
-                upd_keys.push(k.to_string());
+                step(&mut ledger, &mut cur, true, report);
+                match rng.below(6) {
+                    0 => step(&mut ledger, &mut cur, true, report),                       // grant twice: PreconditionsAreNotMet
+                    1 | 2 => step(&mut ledger, &mut cur, false, report),                  // revoke
+                    3 => { step(&mut ledger, &mut cur, false, report); step(&mut ledger, &mut cur, false, report); } // revoke twice
+                    4 => { step(&mut ledger, &mut cur, false, report); step(&mut ledger, &mut cur, true, report); }  // revoke, grant again
+                    _ => {}
+                }
+            } else if rng.chance(1, 10) {
+                step(&mut ledger, &mut cur, false, report);                               // revoke what was never granted
             }
-        }
-        for f in flags() {
-            if rng.chance(1, 2) {
-                let o = call(&mut ledger, acc::SetMarketConfigUpdatable { authority: setup, store: store_key }.to_account_metas(None),
-                    ix::SetMarketConfigUpdatable { is_flag: true, key: f.to_string(), updatable: true }.data(), None);
-                assert!(o.result.is_ok(), "setup updatable flag: {:?}", o.result);
-                upd_flags.push(f.to_string());
+            // `cur` follows the POLICY (a successful call sets the state to its argument)
+            if cur {
+                if is_flag { upd_flags.push(name.clone()) } else { upd_keys.push(name.clone()) }
+            } else if on {
+                revoked.push((is_flag, name.clone()));
             }
         }
     }
@@ -141,7 +168,7 @@ fn world(rng: &mut Rng) -> World {
         if mck == St::Disabled { s.disable_role(RoleKey::MARKET_CONFIG_KEEPER).unwrap(); }
         ledger[0].data = zc(&*s);
     }
-    World { ledger, store: store_key, market: market_key, caller, mk, mck, member, bit_mk: want_mk, bit_mck: want_mck, store_ok, upd_keys, upd_flags }
+    World { ledger, store: store_key, market: market_key, caller, mk, mck, member, bit_mk: want_mk, bit_mck: want_mck, store_ok, upd_keys, upd_flags, revoked }
 }
 
 fn config_of(ledger: &[Acct]) -> (Vec<(String, u128)>, Vec<(String, bool)>) {
@@ -187,7 +214,8 @@ fn main() {
                 let name = match rng.below(12) {
                     0 => "no_such_key".to_string(),
                     1 => "ReserveFactor".to_string(),
-                    2..=6 if !w.upd_keys.is_empty() => rng.pick(&w.upd_keys).clone(),
+                    2..=4 if !w.upd_keys.is_empty() => rng.pick(&w.upd_keys).clone(),
+                    5..=6 if w.revoked.iter().any(|x| !x.0) => { let rk: Vec<String> = w.revoked.iter().filter(|x| !x.0).map(|x| x.1.clone()).collect(); rng.pick(&rk).clone() }
                     _ => rng.pick(&all_keys).clone(),
                 };
                 let v = rng.uint(128);
@@ -204,7 +232,8 @@ fn main() {
                 ));
             }
             4..=5 => {
-                let name = match rng.below(8) { 0 => "no_such_flag".to_string(), _ => rng.pick(&all_flags).clone() };
+                let rf: Vec<String> = w.revoked.iter().filter(|x| x.0).map(|x| x.1.clone()).collect();
+                let name = match rng.below(8) { 0 => "no_such_flag".to_string(), 1..=4 if !rf.is_empty() => rng.pick(&rf).clone(), _ => rng.pick(&all_flags).clone() };
                 let v = rng.chance(1, 2);
                 let o = call(&mut w.ledger, acc::UpdateMarketConfig { authority: w.caller, store: w.store, market: w.market }.to_account_metas(None),
                     ix::UpdateMarketConfigFlag { key: name.clone(), value: v }.data(), unsign);
